@@ -121,11 +121,14 @@ func (m *expirationMap[V]) cleanup(store store[V], policy *defaultPolicy[V], onE
 	// Clean up all buckets up to and including currentBucketNum, starting from
 	// (but not including) the last one that was cleaned up
 	var buckets []bucket
-	for bucketNum := m.lastCleanedBucketNum + 1; bucketNum <= currentBucketNum; bucketNum++ {
-		// With an empty bucket, we don't need to add it to the Clean list
-		if b := m.buckets[bucketNum]; b != nil {
-			buckets = append(buckets, b)
+	// Buckets at or below lastCleanedBucketNum can exist too: an item whose Set
+	// was applied after its bucket had been cleaned up is filed behind the
+	// cleanup frontier. So, look at every bucket, not just the new ones.
+	for bucketNum, b := range m.buckets {
+		if bucketNum > currentBucketNum {
+			continue
 		}
+		buckets = append(buckets, b)
 		delete(m.buckets, bucketNum)
 	}
 	m.lastCleanedBucketNum = currentBucketNum
